@@ -51,6 +51,7 @@ class Case:
         self.expected = set()  # relpaths that are read
         self.plain = True     # names are plain => clang -M is consulted as oracle
         self.env = {}
+        self.flags = []       # bindgen flags (before `--`) that select what is GENERATED; they must not change what is REPORTED
 
 
 def node_name(i, names=None):
@@ -190,6 +191,24 @@ def cases(tier):
         c.inputs = [f"in{i}.h" for i in range(k)]
         c.expected = set(c.files) - {"decoy.h"}
         out.append(c)
+    # options that select which items are generated (file/type/function filters, generators): every file that is read still
+    # shapes the output (macros, layouts), so the dependency set must not move
+    shapes = [("chain", 3, [(0, 1), (1, 2)]), ("diamond", 4, [(0, 1), (0, 2), (1, 3), (2, 3)]), ("fan", 4, [(0, 1), (0, 2), (0, 3)])]
+    for sname, n, edges in shapes:
+        rows = [(f"blocklist-file-h{b}", ["--blocklist-file", f".*n{b}\\.h"]) for b in range(1, n)]
+        rows += [("blocklist-file-all-included", ["--blocklist-file", ".*n[1-9]\\.h"]), ("allowlist-file-root", ["--allowlist-file", ".*n0\\.h"]),
+                 (f"allowlist-file-h{n - 1}", ["--allowlist-file", f".*n{n - 1}\\.h"]),
+                 ("blocklist-type", ["--blocklist-type", "t1"]), ("blocklist-item-all", ["--blocklist-item", ".*"]), ("allowlist-type-root", ["--allowlist-type", "t0"]),
+                 ("allowlist-norec", ["--allowlist-var", "v0", "--no-recursive-allowlist"]), ("ignore-functions", ["--ignore-functions"]),
+                 ("generate-functions", ["--generate", "functions"]), ("opaque", ["--opaque-type", "t.*"]),
+                 ("blocklist-file+allowlist-var", ["--blocklist-file", ".*n1\\.h", "--allowlist-var", "v.*"])]
+        if tier != "thorough":
+            rows = [r for k, r in enumerate(rows) if k < n or k % 2 == 0]
+        for rname, fl in rows:
+            for form in (FORMS if tier == "thorough" else ["quote"]):
+                c = dag_case(f"options shape={sname} form={form} row={rname}", n, edges, {e: form for e in edges}, "ifndef")
+                c.flags = fl
+                out.append(c)
     c = Case("header_contents")
     c.files["hc_dep.h"] = "#pragma once\ntypedef int hc_dep_t;\n#include \"hc_dep2.h\"\n"
     c.files["hc_dep2.h"] = "typedef int hc_dep2_t;\n"
@@ -260,7 +279,7 @@ def run(ck, only=None):
         for h in c.inputs[:-1]:
             pre += ["-include", os.path.join(d, h)]
         job = {"id": c.cid, "callbacks": {"log": True},
-               "args": args + ["--depfile", os.path.join(d, "dep.d"), "-o", os.path.join(d, "out.rs"), "--no-layout-tests", "--"] + cargs + pre}
+               "args": args + c.flags + ["--depfile", os.path.join(d, "dep.d"), "-o", os.path.join(d, "out.rs"), "--no-layout-tests", "--"] + cargs + pre}
         if len(c.inputs) > 1:
             # several input headers through the library API: header() x k (vdriver `ops` on top of args)
             job = {"id": c.cid, "callbacks": {"log": True}, "mode": "gen_ops",
